@@ -29,6 +29,14 @@ CLAIMED = {
    technique="inclusion of the well-formed line grammar in the extracted lexer table; model checking of the product (parser token-cursor interpretation x role-annotated well-formed token DFA); accessor pipelines interpreted on all short child sequences",
    text="Decides the acceptance, structure, accessor and rejection clauses for the whole well-formed grammar at the level of character classes and token kinds: every line form over its complete character sets is tokenised as the grammar requires; in the product with the token grammar no syntax error is reachable, names/values land under ROOT>PARAGRAPH>ENTRY with correct entry and paragraph boundaries and strict returns Ok; with one junk line every outcome is an error; key/value/get/get_all/keys/items/contains_key/paragraphs equal the list model on all child sequences of length <= 3. Value texts are opaque (the lexer partition of C01 gives their extent).",
    note="Oracle grammars are hand-written and conservative (LF line ends, comments in column 0, empty blank lines, no '#'-led continuation lines). Accessor validation is exhaustive only up to 3 children over a 4-kind alphabet (uniform iterator chains). Trusted: rowan child order, hirai."),
+ "C02": dict(level="other", ref="4/C02",
+   technique="enumeration of panic-capable sites (MIR asserts, partial-API calls) and loops over the MIR call graph of all text-parsing entry points; discharge by all-input abstract interpretation (token-cursor fixpoints, lexer tables), syntactic termination arguments, and a reviewed table; recursion/SCC and loop-nesting degree on the call graph",
+   text="For the 65 text-parsing entry points (every FromStr impl plus the relaxed/reader/pgp/vcs/identity functions) the reachable workspace functions (~500) are computed from MIR; every panic-capable site in them must be discharged: parser and lexer code by interpretation over all token-kind sequences / character classes with partial calls modelled as may-panic, the rest by tables/reviewed_sites.json (exact function+callee+ordinal, one reason each). Every loop needs a termination argument (consumes a token of the monotone cursor on every cycle; for-loop or next()-driven loop over a finite iterator; reviewed). No recursion may be reachable; the reported loop-nesting degree (2) bounds the running time polynomially. Any new unwrap/index/slice/assert/loop in reachable code is an undischarged obligation until analysed or reviewed.",
+   note="Trusted: external parsers (regex, url, debversion, chrono) return Result as typed; external callees not matching the partial-API patterns are total (listed in the evidence); reviewed entries are human arguments; memory use is not bounded beyond termination and the degree."),
+ "C06": dict(level="other", ref="4/C06",
+   technique="model checking of both readers' token-cursor interpretations in product with one role-annotated well-formed token grammar (sibling cross-check by shared roles)",
+   text="Both readers consume the same lexer on the unmodified text; each is explored in product with the same well-formed token DFA whose transitions carry roles. Lossless: names/values under the field's ENTRY, paragraph boundaries at blank lines (with C03's accessor validation this fixes what it reports). Lossy: a Field is recorded for every name with the KEY text, every value line's text is appended to that field with newlines between lines, nothing else is appended or dropped, paragraphs end at blank lines, the last paragraph is kept, no Err/panic. Agreement is decided for well-formed documents at the granularity of token kinds.",
+   note="For arbitrary (not well-formed) texts accepted by both readers only the shared lexer is established; value texts are opaque. Oracle grammar is hand-written (rules/deb822_parse.py)."),
 }
 NA_REASON = "check not built yet (construction in progress; see DESIGN.md section 9 build order)"
 
